@@ -56,7 +56,7 @@ check('C01', 'llparser',
       'TLC-built bounded grammar families replayed on the real LLParser; every returned tree judged by TLC against '
       'the TLA+ definition of a valid derivation (ValidParse) of the user grammar',
       'Every grammar of the bounded families (all ordered alternative lists incl. nullable, ambiguous, common-prefix and '
-      'nested-prefix ones, both smart_factorization settings, both dict orders, keyword/synonym/quoted-word tokenizer, explicitly empty skip_tokens, every symbol as explicit start_symbol_name) is built by '
+      'nested-prefix ones, both smart_factorization settings, both dict orders, keyword/synonym/quoted-word/comment tokenizer (keywords also rename tokens into and out of the skipped kinds), explicitly empty skip_tokens, every symbol as explicit start_symbol_name) is built by '
       'the TLA+ case builder, parsed by the real parser on all inputs up to the length bound, and every returned tree '
       'is accepted or rejected by TLC against ValidParse: root, each node a user production, yield = tokens.',
       _LLNOTE, 'DESIGN.md section 4, C01')
@@ -74,8 +74,8 @@ check('C03', 'llparser',
       'families; the real constructor must raise GrammarIsRecursive exactly then; every parse of an accepted grammar '
       'runs under a deterministic machine-step budget',
       'All grammars of the families over all name assignments (families are closed under renaming, start symbol varies) '
-      'and both dict orders, plus the left-recursion focused family R3 (3 symbols, base alternatives and one sequence of '
-      'non-terminals): constructor outcome compared with the TLA+ left-recursion relation; all inputs up to the '
+      'and both dict orders, plus the left-recursion focused families R3 (3 symbols, base alternatives and one sequence of '
+      'non-terminals) and N3 (a nullable symbol occurring twice in a production): constructor outcome compared with the TLA+ left-recursion relation; all inputs up to the '
       'bound parsed under a step budget counted through the parser debug hooks (no wall-clock verdicts).  '
       'LLListExpand.tla gives the productions a ListProds template generates for all 64 option sets; the real template '
       'must be refused exactly when they are left recursive, and accepted ones must terminate.',
@@ -126,7 +126,7 @@ check('C15', 'sql',
       'TLA+ spec of SQL three-valued filter semantics and of the bind list; TLC-enumerated condition lists executed '
       'through SqlMethod on a real sqlite3 connection, returned rows / recorded SQL text / bound values compared',
       'Every single condition of the family (comparisons x all pool values incl. NULL, quotes and wildcards; IN/NOT IN '
-      'with empty, singleton and NULL-containing lists as list/tuple/set; NULL tests; LIKE/NOT LIKE; keyword filters; '
+      'with empty, singleton, NULL-containing and 501-element lists as list/tuple/set; NULL tests; LIKE/NOT LIKE; keyword filters; '
       'OR groups incl. empty and with keyword operands; static conditions; ignored None) is evaluated by the spec on a 49-row table of all value pairs and executed '
       'in four API spellings x both placeholder styles (? and %s) x plain / underscore-prefixed column names; lists of up to 3 conditions by TLC simulation (quick) and all pairs exhaustively '
       '(thorough).  Checked: rows and order, list/all/one/one_or_none, no value in the SQL text, one placeholder per '
@@ -143,11 +143,11 @@ check('C16', 'http',
       'code is run under a deterministic scheduler that enumerates all its schedules at shared-access granularity and '
       'every recorded execution is validated by TLC against the spec',
       'TLC explores every interleaving of 2 threads x 2 requests and 3 threads x 1 (x2 thorough) incl. caller supplied '
-      'ids, requests that fail after their number was handed out and a counter that starts at 9999: Unique, GapFree (sent + lost numbers), MutualExclusion, termination.  harness/sched.py stops real threads before every load/store '
+      'ids, requests that fail after their number was handed out, calls refused before an id is generated and a counter that starts at 9999: Unique, GapFree (sent + lost numbers), MutualExclusion, termination.  harness/sched.py stops real threads before every load/store '
       'of a shared mutable attribute of the underlying connection (found in the bytecode of the working tree) and at lock '
       'acquisition and enumerates all schedules by stateless DFS (a removed or narrowed lock just yields more '
       'schedules); each execution trace (loads, stores, lock events, ids handed to the opener) is judged by TLC: ids '
-      'distinct, gap free up to the numbers lost to failed requests, caller ids (strings, 0, empty, set by a request adapter) untouched, also when all requests share one caller headers dict, for all five verbs (verdict) and the event sequence is a behaviour of ReqId (drift).',
+      'distinct, gap free up to the numbers lost to failed requests, caller ids (strings, 0, empty, set by a request adapter) untouched, also when all requests share one caller headers dict, for all five verbs and with a transport that drops a connection once (verdict) and the event sequence is a behaviour of ReqId (drift).',
       'Trusted: TLC, CPython 3.12 sys.monitoring, the cooperative lock shim. Instructions other than shared accesses '
       'are thread local.  Quick tier caps the schedules per configuration (evidence says when the cap was hit).',
       'DESIGN.md section 4, C16')
@@ -155,7 +155,7 @@ check('C17', 'http',
       'TLA+ spec of connection / method-caller derivations with the expected request as a function of the construction '
       'chain (TLC: Stable, AtMostOneAuth, CacheOwn); TLC-generated histories replayed on real objects, a probe request '
       'through every live connection after every action',
-      'All histories of 3 actions (NewConn, Wrap with one adapter or a list, AuthWrap basic/token/client, NewCaller, '
+      'All histories of 3 actions (NewConn with the connection data as str / tuple / list / dict, Wrap with one adapter or a list, AuthWrap basic/token/client, NewCaller, '
       'CloneCaller none/single/list (one list object shared by all derivations that use it), GetConn per component (two '
       'components whose prefixes differ in the trailing slash), AddAdapter, Request with 5 methods x 11 body kinds) exhaustively and '
       'TLC simulations of 7 actions; after every action every live connection is probed and the captured urllib Request '
@@ -231,9 +231,9 @@ check('C10', 'render',
       'weak-keyed cache pure); TLC-generated histories replayed in one interpreter on real objects; every render event '
       'judged by a TLC trace acceptor whose memo is seeded from fresh interpreters',
       'All histories of 4 actions (NewConf with 2 contents / no_color, DropConf + gc, SetGlobal, Render through a slot or '
-      'the global configuration, colour / no_color, whole / line by line: each line at once, all lines collected first, interleaved with another rendering of the same object) on the table kind and TLC simulations of 12 '
+      'the global configuration, colour / no_color, whole / line by line: each line at once, all lines collected first, interleaved with another rendering of the same object; colours also given as a palette object plus no_color) on the table kind and TLC simulations of 12 '
       'actions over 7 object kinds (pretty-printed value, two tables sharing an enum field type, record formatter, '
-      'h-doc help, an object starting with an empty line, the git history report, a table with non-string title items, a table whose limits are changed between two printings).  Each event must equal the fresh-interpreter output for its '
+      'h-doc help, an object starting with an empty line, the git history report, a table with non-string title items, a table whose limits are changed between two printings, a table built from the format of a printed one without its tallest-titled column).  Each event must equal the fresh-interpreter output for its '
       '(object, configuration content, no_color), line-by-line = whole, stripped colour output = no_color output, no '
       'ESC in no_color output.',
       'Trusted: TLC, harness/sgr.py; objects and configuration contents fixed in harness/c10_objs.py; colours compared '
